@@ -503,6 +503,12 @@ class Interp(object):
             return Opaque('%r.%s' % (v, attr))
         if v is None:
             raise Raised("AttributeError: 'NoneType' object has no attribute '%s'" % attr, node, env.get('__rel__'))
+        if v is BUILTINS.get('dict') and attr == 'fromkeys':
+            # dict.fromkeys(keys, value): every key maps to the *same* value object, as in Python
+            def _fromkeys(interp, args, kwargs, node_, env_):
+                val = args[1] if len(args) > 1 else None
+                return dict((interp.hashable(k), val) for k in interp.iterate(args[0], node_))
+            return _fromkeys
         raise Unsupported('attribute %s of %s' % (attr, type(v).__name__))
 
     def class_attr(self, cref, attr):
@@ -788,7 +794,22 @@ class Interp(object):
         elif isinstance(s, ast.Delete):
             pass
         elif isinstance(s, ast.While):
-            raise Unsupported('while loop')
+            # concrete execution only: the test must evaluate to a known truth value every time round (truth() raises otherwise); bounded
+            broke = False
+            n_ = 0
+            while self.truth(self.ev(s.test, env)):
+                n_ += 1
+                if n_ > 10000:
+                    raise Unsupported('while loop does not end within 10000 iterations on the model input')
+                try:
+                    self.block(s.body, env)
+                except _Break:
+                    broke = True
+                    break
+                except _Continue:
+                    continue
+            if not broke:
+                self.block(s.orelse, env)
         elif isinstance(s, ast.With):
             for it_ in s.items:
                 cv = self.ev(it_.context_expr, env)
